@@ -73,13 +73,15 @@ def lone_request(site_desc, bp):
     return summarize(S.do_call(site, bp, _nopark), bp['token'])
 
 
-def deep_check(site, pristine, rec):
+def deep_check(site, pristine, rec, full=False):
     """Compare the long-lived state with what it was right after the site was built; the first differences go
-    into the record of the call that has just finished."""
-    now = S.deep_state(site)
-    if now != pristine:
+    into the record of the call that has just finished.  After every call: everything hanging on the mounted trees
+    and the applications + the global config; `full`: classes, modules and the default toolbox as well."""
+    now = S.deep_state(site, full)
+    if any(now[k] != pristine.get(k) for k in now) or (full and len(now) != len(pristine)):
+        then = pristine if full else {k: pristine.get(k) for k in now}
         rec['deep_diff'] = diff_paths(json.loads(json.dumps(now, sort_keys=True)),
-                                      json.loads(json.dumps(pristine, sort_keys=True)), limit=4)
+                                      json.loads(json.dumps(then, sort_keys=True)), limit=4)
     return now
 
 
@@ -94,6 +96,7 @@ class Controller(object):
     def __init__(self, site, plans, nthreads, assign, deep=None):
         self.aborted = False
         self.deep = deep
+        self.ncalls = 0
         self.site = site
         self.plans = plans
         self.queues = [[i for i, t in enumerate(assign) if t == k] for k in range(nthreads)]
@@ -127,7 +130,9 @@ class Controller(object):
                     self.trace.append((k, i, 'resume:' + stage))
                 self.records[i] = S.do_call(self.site, self.plans[i], park)
                 if self.deep is not None:
-                    deep_check(self.site, self.deep, self.records[i])
+                    self.ncalls += 1
+                    last = self.pos[k] + 1 >= len(self.queues[k])
+                    deep_check(self.site, self.deep, self.records[i], full=last or self.ncalls % 8 == 0)
                 self.trace.append((k, i, 'done'))
                 if len(self.records[i]['snaps']) > MAX_SNAPS:
                     self.aborted = True
@@ -188,11 +193,12 @@ def execute(case):
     baselines = {}
     blown = False
     deep = S.deep_state(site)
-    for k, bp in baseline_plans(case).items():
+    bplans = baseline_plans(case)
+    for bi, (k, bp) in enumerate(bplans.items()):
         if True:
             S.CUR.plan = None
             baselines[k] = (bp, S.do_call(site, bp, _nopark))
-            deep_check(site, deep, baselines[k][1])
+            deep_check(site, deep, baselines[k][1], full=bi == len(bplans) - 1)
             if len(baselines[k][1]['snaps']) > MAX_SNAPS:
                 blown = True
                 break
@@ -429,6 +435,11 @@ def _oracle(case, res):
             if sorted(k for k in snap['serving'] if 'mk' not in k) != ['request', 'response']:
                 bad.append(('request %d (%s) at %s: cherrypy.serving holds %s' % (i, tok, st, snap['serving']),
                             'serving_not_loaded'))
+            elif st == 'start' and sorted(snap['serving']) != ['request', 'response']:
+                # before the (sub-)request's own first op: nothing ad hoc yet - an internal redirect's sub-request
+                # must not find what its parent parked in the container
+                bad.append(('request %d (%s) sub-request %d at start: cherrypy.serving already carries %s'
+                            % (i, tok, sub, snap['serving']), 'serving_not_loaded'))
             if foreign_tokens(json.dumps(snap['serving']), tok):
                 bad.append(('request %d (%s) at %s: cherrypy.serving carries attributes of another request: %s'
                             % (i, tok, st, snap['serving']), 'foreign_entry_visible'))
@@ -453,7 +464,8 @@ def _oracle(case, res):
         # (4) response
         if rec['exc'] and not plan.get('faults'):
             bad.append(('request %d (%s): exception escaped the WSGI stack: %s' % (i, tok, rec['exc']), 'escaped'))
-        elif (rec['exc'] or '').split(':')[0] != (brec['exc'] or '').split(':')[0]:
+        elif dstage is None and (rec['exc'] or '').split(':')[0] != (brec['exc'] or '').split(':')[0]:
+            # (a request that removed hooks itself may well have removed the failing one)
             bad.append(('request %d (%s, faults %s): %s escaped the WSGI stack, as the first request ever: %s'
                         % (i, tok, plan.get('faults'), rec['exc'], brec['exc']), 'response_history_dependent'))
         if rec['body'] is not None and foreign_tokens(rec['body'], tok):
